@@ -7,7 +7,7 @@ from vf.util import now_result
 ID = "C36"
 LEVEL = "exploration"
 ENGINE = "E0 pure"
-TECHNIQUE = "bounded-exhaustive enumeration of k-subsets (N<=7) + Hypothesis-drawn subsets/orders up to N=256, round-trip oracle"
+TECHNIQUE = "bounded-exhaustive enumeration of k-subsets (N<=7) + Hypothesis-drawn subsets/orders up to N=256, round-trip oracle through the codec, DownloadNode._decode_blocks and Retrieve._decode_blocks"
 RULE = ("exhaustive: for all 1<=k<=N<=Nmax (quick 6, thorough 7) every k-subset of the N blocks, in sorted and in one shuffled order, for a "
         "segment whose size is a multiple of k and for a padded tail segment; random: k<=N<=64 (thorough 256), random subsets, orders and "
         "sizes. Non-trivial = subset containing at least one secondary block (id>=k); distinct by (k,N,size,subset,order).")
